@@ -278,13 +278,16 @@ func c01Sweep(c *mc.Ctx, maxLen int) {
 			}
 			if p1 == "" && p3 == "" && p4 == "" {
 				run := int32(0)
-				for i := int32(0); i < int32(64*l); i++ {
+				bad := 0
+				for i := int32(0); i < int32(64*l) && bad < 3; i++ {
 					bit := int32(w[i>>6] >> uint(i&63) & 1)
 					if a, b, pp := rank64(w, cur.i64, i); pp || a != run || b != bit {
 						c.Fail(order, "Rank64", "Rank64", cs(i), "", "")
+						bad++
 					}
 					if a, b, pp := rank128(w, cur.i128, i); pp || a != run || b != bit {
 						c.Fail(order, "Rank128", "Rank128", cs(i), "", "")
+						bad++
 					}
 					run += bit
 				}
